@@ -648,7 +648,8 @@ fn run_case(cx: &mut Ctx, c: &Case, force: bool) {
                     // path taken (strategy_used, used_parallel).  LSD passes with a wide digit or many passes are
                     // too slow to evaluate in Coq: those cases only go through the verified checker.
                     let took_lsd = out.aux.get(0).copied() == Some(3);
-                    let cheap = !took_lsd || (c.pp(1) >= 3 && c.pp(1) <= 8);
+                    // (a thread count near usize::MAX is a nat in the model's chunking: not evaluable)
+                    let cheap = (!took_lsd || (c.pp(1) >= 3 && c.pp(1) <= 8)) && c.pp(4) <= 4096;
                     if cheap && fits(if took_lsd && out.aux.get(1).copied() == Some(1) { 120 } else { 48 }) {
                         let w = if cell == "adv/u32" { 4 } else { 8 };
                         let (force_s, adaptive) = (if c.pp(0) <= 5 { c.pp(0) } else { 0 }, (c.pp(0) != 6) as u64);
@@ -684,7 +685,7 @@ fn run_case(cx: &mut Ctx, c: &Case, force: bool) {
                     cx.coq(39, &[threads], &[&keys], &e, c, force);
                 }
                 "adv/u64_execute" => {
-                    if fits(48) {
+                    if fits(48) && c.pp(4) <= 4096 {
                         let (force_s, adaptive) = (if c.pp(0) <= 5 { c.pp(0) } else { 0 }, (c.pp(0) != 6) as u64);
                         let nt = if c.pp(4) > 0 { c.pp(4) } else { threads };
                         cx.coq(40, &[8, force_s, adaptive, c.pp(1), c.pp(2), c.pp(3), nt, c.pp(5)], &[&c.xs], &out.ints, c, force);
@@ -718,7 +719,7 @@ fn run_case(cx: &mut Ctx, c: &Case, force: bool) {
                 if cell == "adv/str" { e.extend_from_slice(&out.aux); }
                 for s in &out.strs { e.push(s.len() as u64); e.extend(s.iter().map(|&b| b as u64)); }
                 if cell == "radix/bytes" { cx.coq(28, &[], &refs, &e, c, force); }
-                else {
+                else if c.pp(4) <= 4096 {
                     let (force_s, adaptive) = (if c.pp(0) <= 5 { c.pp(0) } else { 0 }, (c.pp(0) != 6) as u64);
                     let nt = if c.pp(4) > 0 { c.pp(4) } else { cx.threads };
                     let fl = (out.aux.get(0).copied().unwrap_or(0) * 2 + out.aux.get(1).copied().unwrap_or(0)) as u32;
